@@ -59,6 +59,17 @@ func c06Profiles() []string {
 		}
 		out = append(out, mk(fmt.Sprintf("siblings %d", m), prefixSets[(m-2)%3], M("propertyConstraints", pc)))
 	}
+	// a mapping in which one property key is written twice (yaml.v3 keeps both entries in the node tree)
+	{
+		pc := M()
+		for i := 0; i < 3; i++ {
+			k, val := c06Quant(i, fmt.Sprintf("ex.c%d", i+1), leaf(i))
+			pc.Set(k, val)
+		}
+		k, val := c06Quant(1, "ex.c1", leaf(1))
+		pc.Set(k, val)
+		out = append(out, mk("repeated key", prefixSets[0], M("not", M("propertyConstraints", pc))))
+	}
 	// depth 2: each sibling's inner validation has two quantified siblings itself
 	pc := M()
 	for i := 0; i < 2; i++ {
